@@ -28,6 +28,8 @@ ASSUMPTIONS = [
     "update() with several items is judged item by item",
     "sorting by a key with ties may produce any consistent permutation; sorting by a Vector member is not generated (no order defined)",
     "groups of scalars (result of integer indexing) are outside the statement's '(non-scalar) Datagroup' and receive no further row operations",
+    "an index that numpy computes from a member (np.argsort / argmax / argmin of an Array) is taken as the input of the selection once it is verified to be what it claims (ties in any order)",
+    "groups whose first member is an (n,k) Array only accept (n,k) members; narrow, unsigned and boolean members are not unique per row (rows are attributed through the other members)",
 ]
 REAL_STUB = {"real": ["osyris.Datagroup", "osyris.Array", "osyris.Vector"], "stub": []}
 KEYS = ["a", "b", "c", "d", "e", "f"]
